@@ -370,7 +370,14 @@ func (w *World) execOpExtra(ctx context.Context, toks []string) error {
 	if ok, err := w.execForgeOp(ctx, toks); ok || err != nil {
 		return err
 	}
-	if toks[0] == "final10" || toks[0] == "final11" {
+	if ok, err := w.execGarbageOp(ctx, toks); ok || err != nil {
+		return err
+	}
+	if toks[0] == "unchanged" {
+		w.observe(atoi(toks[1]))
+		return nil
+	}
+	if toks[0] == "final10" || toks[0] == "final11" || toks[0] == "final12" {
 		w.printf("%s\n", toks[0])
 		return nil
 	}
